@@ -1351,6 +1351,7 @@ impl<'a> Gen<'a> {
         }
         let mut args = Vec::new();
         let mut pre = Vec::new();
+        let mut io_locals: Vec<(Ty, Name)> = Vec::new();
         let exact = f.template.is_some() || self.prog.funcs.iter().filter(|g| g.name == f.name).count() > 1;
         for p in &f.params {
             if p.io == 0 {
@@ -1360,10 +1361,25 @@ impl<'a> Gen<'a> {
                 }
                 args.push(a);
             } else {
+                // aliasing: the same variable for two out / inout parameters, or a static global that the
+                // callee may also touch - copy-in / copy-out has to behave as if the arguments were distinct
+                let earlier: Vec<Name> = io_locals.iter().filter(|(t, _)| t == &p.ty).map(|(_, n)| *n).collect();
+                let statics: Vec<VarInfo> = self.statics.iter().filter(|v| v.ty == p.ty && !v.is_const).cloned().collect();
+                if !earlier.is_empty() && self.pick(3) == 0 {
+                    args.push(E::Var(earlier[self.pick(earlier.len())], p.ty.clone()));
+                    continue;
+                }
+                if !statics.is_empty() && self.pick(3) == 0 {
+                    let v = statics[self.pick(statics.len())].clone();
+                    self.note_static(&v, true);
+                    args.push(E::Var(v.name, p.ty.clone()));
+                    continue;
+                }
                 // a fresh local of exactly the parameter type receives the result
                 let init = self.expr(&p.ty, 2);
                 let n = self.declare(p.ty.clone(), false, false);
                 pre.push(St::Decl(p.ty.clone(), n, Some(init), false));
+                io_locals.push((p.ty.clone(), n));
                 args.push(E::Var(n, p.ty.clone()));
             }
         }
